@@ -4,6 +4,22 @@
 // All coordinates are integers (exactly representable), so every comparison is exact;
 // the only inexact step in the C++ is exp(sum(log(ref-p))) in HypervolumeContributionMD,
 // whose results are rounded to the nearest integer (and flagged if not within 1e-6 of one).
+// sub-routine ties (ops dca/dcb): ndHelperA/ndHelperB/sweepA/sweepB of BaseDCNonDominatedSort are private; the REAL
+// header is compiled with access control lifted (every header it includes is included before, with access control intact)
+#include <shark/LinAlg/Base.h>
+#include <shark/Algorithms/DirectSearch/Operators/Domination/ParetoDominance.h>
+#include <vector>
+#include <list>
+#include <set>
+#include <map>
+#include <utility>
+#include <algorithm>
+#include <functional>
+#include <sstream>
+#include <iostream>
+#define private public
+#include <shark/Algorithms/DirectSearch/Operators/Domination/DCNonDominatedSort.h>
+#undef private
 #include <shark/Algorithms/DirectSearch/Operators/Domination/NonDominatedSort.h>
 #include <shark/Algorithms/DirectSearch/Operators/Hypervolume/HypervolumeCalculator.h>
 #include <shark/Algorithms/DirectSearch/Operators/Hypervolume/HypervolumeContribution.h>
@@ -27,9 +43,14 @@ static bool parseInts(std::vector<std::string> const& t, std::size_t from, std::
 	}
 	return true;
 }
+// rational (dyadic) coordinates: a line may start with the token q<den> (den a power of two); the real algorithms then
+// get every coordinate divided by den (exact in binary floating point), the oracles work on the integer numerators, and
+// volumes are reported multiplied by den^m (exact) - by homogeneity the same line as without the token
+static double g_den = 1;
+static double scaleOf(std::size_t m){ double s = 1; for(std::size_t i = 0; i != m; ++i) s *= g_den; return s; }
 static RealVector vec(std::vector<long long> const& a, std::size_t from, std::size_t m){
 	RealVector v(m);
-	for(std::size_t i = 0; i != m; ++i) v(i) = (double)a[from+i];
+	for(std::size_t i = 0; i != m; ++i) v(i) = (double)a[from+i] / g_den;
 	return v;
 }
 static Points pts(std::vector<long long> const& a, std::size_t from, std::size_t m, std::size_t n){
@@ -70,9 +91,9 @@ static long long cellHv(Points const& P, RealVector const& ref){
 	if(P.empty()) return 0;
 	std::vector<long long> lo(m), z(m);
 	for(std::size_t d = 0; d != m; ++d){
-		lo[d] = (long long)ref(d);
-		for(auto const& p: P) lo[d] = std::min(lo[d], (long long)p(d));
-		if(lo[d] >= (long long)ref(d)) return 0;
+		lo[d] = (long long)(ref(d) * g_den);
+		for(auto const& p: P) lo[d] = std::min(lo[d], (long long)(p(d) * g_den));
+		if(lo[d] >= (long long)(ref(d) * g_den)) return 0;
 	}
 	z = lo;
 	long long count = 0;
@@ -80,12 +101,12 @@ static long long cellHv(Points const& P, RealVector const& ref){
 		bool cov = false;
 		for(auto const& p: P){
 			bool le = true;
-			for(std::size_t d = 0; d != m && le; ++d) if(p(d) > (double)z[d]) le = false;
+			for(std::size_t d = 0; d != m && le; ++d) if(p(d) * g_den > (double)z[d]) le = false;
 			if(le){ cov = true; break; }
 		}
 		if(cov) ++count;
 		std::size_t d = 0;
-		while(d != m){ if(++z[d] < (long long)ref(d)) break; z[d] = lo[d]; ++d; }
+		while(d != m){ if(++z[d] < (long long)(ref(d) * g_den)) break; z[d] = lo[d]; ++d; }
 		if(d == m) break;
 	}
 	return count;
@@ -105,6 +126,13 @@ int main(){
 	while(std::getline(std::cin, line)){
 		std::vector<std::string> t = vh::tokens(line);
 		if(t.empty()){ std::cout << "\n"; continue; }
+		g_den = 1;
+		if(t[0].size() > 1 && t[0][0] == 'q' && t.size() > 1){
+			long long dq = 0; bool okq = true;
+			for(std::size_t c = 1; c < t[0].size(); ++c){ if(t[0][c] < '0' || t[0][c] > '9'){ okq = false; break; } dq = dq * 10 + (t[0][c] - '0'); }
+			if(!okq || dq <= 0 || (dq & (dq - 1)) != 0 || dq > 1024 || t[1] == "hoys" || t[1] == "dca" || t[1] == "dcb"){ std::cout << "bad-op\n"; continue; }
+			g_den = (double)dq; t.erase(t.begin());
+		}
 		std::string const& op = t[0];
 		std::ostringstream os; std::string orc;
 		try{
@@ -133,7 +161,9 @@ int main(){
 			RealVector ref = vec(a, 2, m);
 			Points P = pts(a, 2+m, m, n);
 			long long want = cellHv(P, ref);
-			auto emit = [&](char const* name, double v){
+			double const S = scaleOf(m);
+			auto emit = [&](char const* name, double v0){
+				double v = v0 * S;
 				os << (os.tellp() > 0 ? " " : "") << name << "=" << num(v);
 				if(v != (double)want) orc += std::string(" !oracle hv-def ") + name;
 			};
@@ -149,12 +179,14 @@ int main(){
 			RealVector ref = vec(a, 3, m);
 			Points P = pts(a, 3+m, m, n);
 			typedef std::vector<KeyValuePair<double,std::size_t> > Res;
-			auto call = [&](std::size_t kk) -> Res {
+			double const S = scaleOf(m);
+			auto call0 = [&](std::size_t kk) -> Res {
 				if(alg == "2d"){ HypervolumeContribution2D c; return kind == "small" ? c.smallest(P, kk, ref) : c.largest(P, kk, ref); }
 				if(alg == "3d"){ HypervolumeContribution3D c; return kind == "small" ? c.smallest(P, kk, ref) : c.largest(P, kk, ref); }
 				if(alg == "md"){ HypervolumeContributionMD c; return kind == "small" ? c.smallest(P, kk, ref) : c.largest(P, kk, ref); }
 				HypervolumeContribution c; return kind == "small" ? c.smallest(P, kk, ref) : c.largest(P, kk, ref);
 			};
+			auto call = [&](std::size_t kk) -> Res { Res res = call0(kk); for(auto& kv: res) kv.key *= S; return res; };
 			bool inexact = false;
 			// (1) k = n: every point is reported once; canonical form = contribution by index
 			Res full = call(n);
@@ -178,6 +210,16 @@ int main(){
 				specv[i] = want;
 				if(seen[i] && std::fabs(val[i] - (double)want) > 1e-6 * (1 + std::fabs((double)want))){ orc += " !oracle contribution-def"; break; }
 			}
+			// every k: the reported keys are the first k of the full result (2-D and 3-D algorithms: cheap)
+			if(alg == "2d" || alg == "3d"){
+				for(std::size_t kk = 0; kk <= n; ++kk){
+					Res part = call(kk);
+					if(part.size() != kk){ orc += " !oracle contribution-k-count"; break; }
+					bool same = true;
+					for(std::size_t i = 0; i != kk && same; ++i) if(i >= full.size() || part[i].key != full[i].key) same = false;
+					if(!same){ orc += " !oracle contribution-k-prefix"; break; }
+				}
+			}
 			// (2) the requested k: values in reported order; each must be the contribution of its index
 			Res sel = call(k);
 			if(sel.size() != k) orc += " !oracle contribution-count";
@@ -193,6 +235,87 @@ int main(){
 			os << "] sel=[";
 			for(std::size_t i = 0; i != selv.size(); ++i) os << (i ? "," : "") << selv[i];
 			os << "] spec=" << showV(specv);
+		}else if(op == "hoys" && parseInts(t, 1, a) && a.size() >= 5 && a.size() == 5 + (std::size_t)(a[0]*(a[1]+2))){
+			// hoys m n sqrtN split cover low.. up.. pts..: HypervolumeCalculatorMDHOY::stream called directly (public member)
+			std::size_t m = a[0], n = a[1];
+			HypervolumeCalculatorMDHOY c; c.m_sqrtNoPoints = (std::size_t)a[2];
+			int split = (int)a[3]; double cover = (double)a[4];
+			RealVector low = vec(a, 5, m), up = vec(a, 5+m, m);
+			Points P = pts(a, 5+2*m, m, n);
+			// preconditions of a reachable call (otherwise the C++ indexes regionLow[split] out of range): checked here
+			bool ok = m >= 2 && split >= 0 && split <= (int)m - 2;
+			for(std::size_t d = 0; d + 1 < m; ++d) if(!(low(d) < up(d))) ok = false;
+			for(std::size_t i = 0; i != n && ok; ++i){
+				if(!(P[i](m-1) < cover)) ok = false;
+				if(i && P[i-1](m-1) > P[i](m-1)) ok = false;
+				int below = 0;
+				for(std::size_t d = 0; d + 1 < m; ++d){
+					if(!(P[i](d) < up(d))) ok = false;
+					if((int)d < split && low(d) < P[i](d)) ++below;
+					// objectives behind `split` have never been cut in a real run: regionLow is the minimum over all points there
+					if((int)d > split && P[i](d) < low(d)) ok = false;
+				}
+				if(below >= 2) ok = false;
+			}
+			if(!ok){ os << "skip"; }
+			else{
+				double v = n ? c.stream(low, up, P, split, cover) : 0.0;
+				os << "stream=" << num(v);
+				// definition: cells x of the (m-1)-dimensional region, height cover - min{last(p) | p <= x}
+				std::vector<long long> z(m-1);
+				for(std::size_t d = 0; d + 1 < m; ++d) z[d] = (long long)low(d);
+				long long want = 0;
+				while(true){
+					double best = cover;
+					for(auto const& p: P){
+						bool le = true;
+						for(std::size_t d = 0; d + 1 < m && le; ++d) if(p(d) > (double)z[d]) le = false;
+						if(le) best = std::min(best, p(m-1));
+					}
+					want += (long long)(cover - best);
+					std::size_t d = 0;
+					while(d + 1 < m){ if(++z[d] < (long long)up(d)) break; z[d] = (long long)low(d); ++d; }
+					if(d + 1 == m) break;
+				}
+				if(v != (double)want) orc += " !oracle hoy-stream-def";
+			}
+		}else if((op == "dca" || op == "dcb") && parseInts(t, 1, a) && a.size() >= 4){
+			// dca k m n 0 pts.. frt..   : ndHelperA(S, k) on the n points as given (front numbers preset)
+			// dcb k m nL nH pts.. frt.. : ndHelperB(L, H, k), L = first nL points, H = the following nH points
+			std::size_t k = a[0], m = a[1], nL = a[2], nH = a[3], n = nL + nH;
+			if(a.size() != 4 + n*m + n || k < 2 || k > m){ std::cout << "bad-op\n"; continue; }
+			Points P = pts(a, 4, m, n);
+			std::vector<BaseDCNonDominatedSort::Point> pv;
+			for(std::size_t i = 0; i != n; ++i){ pv.push_back(BaseDCNonDominatedSort::Point(P[i])); pv.back().frt = (unsigned)a[4 + n*m + i]; }
+			BaseDCNonDominatedSort sorter;
+			BaseDCNonDominatedSort::ContainerType L, H;
+			for(std::size_t i = 0; i != nL; ++i) L.push_back(&pv[i]);
+			for(std::size_t i = nL; i != n; ++i) H.push_back(&pv[i]);
+			std::vector<unsigned> before(n), after(n);
+			for(std::size_t i = 0; i != n; ++i) before[i] = pv[i].frt;
+			if(op == "dca") sorter.ndHelperA(L, k); else sorter.ndHelperB(L, H, k);
+			for(std::size_t i = 0; i != n; ++i) after[i] = pv[i].frt;
+			os << "frt=" << showV(after);
+			// independent postconditions (definitions of figures 2 and 7 of the paper, on the first k objectives)
+			auto leK = [&](std::size_t i, std::size_t j){ for(std::size_t d = 0; d != k; ++d) if(P[i](d) > P[j](d)) return false; return true; };
+			if(op == "dcb"){
+				for(std::size_t i = 0; i != nL; ++i) if(after[i] != before[i]) orc += " !oracle dcb-changes-L";
+				for(std::size_t h = nL; h != n; ++h){
+					unsigned want = before[h];
+					for(std::size_t l = 0; l != nL; ++l) if(leK(l, h)) want = std::max(want, before[l] + 1);
+					if(after[h] != want){ orc += " !oracle dcb-def"; break; }
+				}
+			}else{
+				// A: frt'[s] = max(frt[s], 1 + max frt'[t] over t in S strictly dominating s in the first k objectives)
+				// (precondition of ndHelperA: the projections on the first k objectives are pairwise distinct)
+				bool distinct = true;
+				for(std::size_t i = 0; i != n && distinct; ++i) for(std::size_t j = 0; j != i; ++j) if(leK(i, j) && leK(j, i)){ distinct = false; break; }
+				for(std::size_t s2 = 0; s2 != n && distinct; ++s2){
+					unsigned want = before[s2];
+					for(std::size_t t2 = 0; t2 != n; ++t2) if(t2 != s2 && leK(t2, s2) && !leK(s2, t2)) want = std::max(want, after[t2] + 1);
+					if(after[s2] != want){ orc += " !oracle dca-def"; break; }
+				}
+			}
 		}else if(op == "ssp" && parseInts(t, 1, a) && a.size() >= 4 && a.size() == 4 + (std::size_t)(2*a[1])){
 			std::size_t k = a[0], n = a[1];
 			RealVector ref = vec(a, 2, 2);
@@ -233,7 +356,7 @@ int main(){
 					if(A[c-1][j] >= 0) A[c][i] = std::max(A[c][i], A[c-1][j] + (ref(0) - F[i](0)) * (F[j](1) - F[i](1)));
 				double best = 0;
 				for(std::size_t c = 1; c <= k; ++c) for(std::size_t i = 0; i != f; ++i) best = std::max(best, A[c][i]);
-				if((double)got < best) orc += " !oracle subset-not-optimal";
+				if((double)got < best * scaleOf(2)) orc += " !oracle subset-not-optimal";
 			}
 			os << " sel=[";
 			{ bool first = true; for(std::size_t i = 0; i != n; ++i) if(selected[i]){ os << (first ? "" : ",") << i; first = false; } }
